@@ -41,6 +41,7 @@ type verdictSpec struct {
 }
 
 type handlerSpec struct {
+	slow bool   // sleep past the session's context age first, then behave as kind says
 	kind string // ret | status | okstatus | panic | unmarshalable | sleep | park | failpack
 	st   statusSpec
 	pval string
@@ -164,6 +165,9 @@ func runHandler(c *caseCfg, kind string) (interface{}, *erpc.Status) {
 	}
 	c.invoke(kind)
 	h := c.handler
+	if h.slow {
+		time.Sleep(100 * time.Millisecond)
+	}
 	switch h.kind {
 	case "status":
 		return nil, erpc.NewStatus(h.st.code, h.st.msg, h.st.cause)
@@ -501,7 +505,7 @@ func runNormal(c *caseCfg) observedSet {
 	}
 	sess, rp := newSession(c.peer())
 	if c.env == "ctxexp" {
-		sess.(interface{ SetContextAge(time.Duration) }).SetContextAge(40 * time.Millisecond)
+		sess.(interface{ SetContextAge(time.Duration) }).SetContextAge(30 * time.Millisecond)
 	}
 	c.send(rp)
 	sendPing(rp)
@@ -1075,13 +1079,24 @@ func main() {
 		case 1:
 			c := malformed(cfg)
 			record(c, runNormal(c), "malformed-header")
-		case 2: // handling context expires while the handler runs
+		case 2: // handling context expires while the handler runs: every way the call can end
+			// afterwards (return, status, panic, unmarshalable result -> fallback write,
+			// panic in preWriteReply) must still be answered
 			c := newCase()
 			c.env = "ctxexp"
-			c.handler = handlerSpec{kind: "sleep"}
-			if cfg.Rng.Intn(2) == 0 {
+			kinds := []string{"ret", "status", "panic", "unmarshalable", "okstatus", "pwr-panic"}
+			k := kinds[(i/8)%len(kinds)]
+			if k == "pwr-panic" {
+				c.handler = genHandler(cfg, []string{"ret", "status"}[cfg.Rng.Intn(2)])
+				c.verdicts["pwr"] = genVerdict(cfg, "pwr", 3)
+			} else {
+				c.handler = genHandler(cfg, k)
+			}
+			c.handler.slow = true
+			if cfg.Rng.Intn(3) == 0 {
 				c.route = "unknown"
 			}
+			st.Count("context-expired:" + k)
 			record(c, runNormal(c), "context-expired")
 		case 3: // peer half-closes while the handler runs
 			c := newCase()
